@@ -1817,7 +1817,26 @@ fn main() {
         cfg.threads = 1;
         RAW_MEMORY.store(true, std::sync::atomic::Ordering::Relaxed);
     }
+    let memcheck = cfg.tool == "memcheck";
+    if memcheck {
+        cfg.threads = 1;
+        RAW_MEMORY.store(true, std::sync::atomic::Ordering::Relaxed);
+    }
     let mut rep = Report::new(cfg.clone());
+
+    if memcheck {
+        // valgrind memcheck: the heap-owning element through every conversion / view / write of the
+        // matrix API (a double drop is a real double free, a read after a move a real invalid read)
+        let per = cfg.n(4000, 4000);
+        let proto = Sub::new("own_conversions", &format!("tool=memcheck, single thread: {} random programs per size (length <= 10) on matrices of the heap-owning Own element, same monitors as the native own_conversions sub-check", per)).with_floor(per);
+        let s = run_cases(&cfg, proto, 3 * per, |s, i| run_own(s, &cfg, i, OpSet::Full, 10));
+        rep.push(s);
+        let mut proto = Sub::new("array_fns", "tool=memcheck: each of the 8 array conversion functions x 6 matrix types x {Tag, Own}").with_floor(0);
+        proto.exhaustive = true;
+        let s = run_cases(&cfg, proto, 96, |s, i| run_array_fn(s, &cfg, i));
+        rep.push(s);
+        std::process::exit(rep.finish());
+    }
 
     if miri {
         // the unsafe-backed operations only, under the interpreter; slice views first so that a
